@@ -178,6 +178,12 @@ class Canon:
         from .prov import const_int, const_item
         e = strip(e)
         k = e.k
+        if k in ('field', 'binop', 'cast'):
+            v = const_int(e)
+            if v is not None and k != 'cast':
+                return str(v) if -(1 << 16) < v < 1 << 16 else hex(v)
+            if v is not None and k == 'cast' and strip(e.args[0]).k != 'const':
+                return str(v) if -(1 << 16) < v < 1 << 16 else hex(v)
         if k == 'const':
             it = const_item(e)
             if it:
